@@ -195,7 +195,7 @@ def family(run):
     sprogs = [p for s in ((1, 2, 3) if run.thorough else (1, 2)) for p in seqbody.programs(s)]
     if not run.thorough:
         # the bool-snapshot / nested-return fragments (C03 material) take part alone, not in combinations
-        sprogs = [p for p in sprogs if len(p) == 1 or not any(st[0] in ("B1", "B2", "N1", "N2", "N3", "N4", "MD1", "MD2", "LS1", "LS2", "LS3", "LS4") for st in p)]
+        sprogs = [p for p in sprogs if len(p) == 1 or not any(st[0] in ("B1", "B2", "N1", "N2", "N3", "N4", "MD1", "MD2", "LS1", "LS2", "LS3", "LS4", "RP1", "RP2", "VC1", "VC2") for st in p)]
     if not run.thorough:
         extra = list(coro.programs(3))
         run.rng.shuffle(extra)
